@@ -105,7 +105,7 @@ VARIANTS = {
              'default = self.apply(default, allow_partial=True, root_path=root_path)', 'pass', 'C04.d', 'ValueSpecBase.set_default'),
         fire('schema-compat-tolerates-missing-key', CS, 'Schema.is_compatible',
              'if key_spec not in other:\n            return False', 'if key_spec not in other:\n            continue',
-             'C04.e', 'Schema.is_compatible#key_spec not in other'),
+             'C04.e', 'Schema.is_compatible#key in other'),
         silent('swap-operands-keeping-meaning', VS, 'Number._is_compatible',
                'other.min_value < self._min_value', 'self._min_value > other.min_value'),
     ],
